@@ -43,6 +43,23 @@ theorem R.bind_leaves {α β} {r : R α} {f : α → R β} {t v} (h : r.leaves t
   unfold R.bind
   rw [h2, h1]
 
+theorem getField_inv {env : Env} {x i : Nat} {a : Int} (h : getField env x i = some a) :
+    ∃ fs, lookup env x = some (.recd fs) ∧ fs[i]? = some a := by
+  unfold getField at h
+  split at h
+  · rename_i fs hl; exact ⟨fs, hl, h⟩
+  · cases h
+
+theorem setField_inv {env env' : Env} {x i : Nat} {k : Int} (h : setField env x i k = some env') :
+    ∃ fs, lookup env x = some (.recd fs) ∧ i < fs.length ∧ update env x (.recd (fs.set i k)) = some env' := by
+  unfold setField at h
+  split at h
+  · rename_i fs hl
+    by_cases hi : i < fs.length
+    · simp [hi] at h; exact ⟨fs, hl, hi, h⟩
+    · simp [hi] at h
+  · cases h
+
 /-! ### how a `while` loop unfolds -/
 
 /-- `LoopRun fns c b env cs bs env'`: started in `env`, the loop `while c { b }`
